@@ -57,7 +57,8 @@ def run_case(case, ctx):
                 curation_ops=int(rng.integers(1, 7)),
                 spikeless=['none', 'first', 'middle', 'last'][int(rng.integers(0, 4))], ncdat_extra=0,
                 dtype_ids=['int32', 'uint16', 'uint32', 'int64'][int(rng.integers(0, 4))],
-                far_ids=int(rng.choice([0, 0, 0, 0, 300, 14000])), interleave=bool(rng.random() < 0.3))
+                far_ids=int(rng.choice([0, 0, 0, 0, 300, 14000])), interleave=bool(rng.random() < 0.3),
+                flat_template=bool(rng.random() < 0.2), wmi_only=bool(rng.random() < 0.15))
     opts.update(dtype_amps=['float64', 'float32'][int(rng.integers(0, 2))],
                 dtype_templates=['float32', 'float32', 'float64'][int(rng.integers(0, 3))],
                 dtype_feat=['float32', 'float64'][int(rng.integers(0, 2))])
@@ -132,14 +133,14 @@ def run_case(case, ctx):
                     # choice for the cluster's waveform and for the cluster's channel list
                     rc = call(m.get_cluster_channels, c)
                     which = [t for t, n_ in zip(ts, cnt) if n_ == cnt.max()]
-                    for t, E in zip(which, exp):
-                        if np.allclose(D[c], E, atol=1e-6 * scale, rtol=1e-6) and rc.ok and \
-                                sorted(int(x) for x in np.asarray(rc.value).tolist()) != sorted(chans(spec, rt.unwhitened(spec, t, True))) and \
-                                any(sorted(int(x) for x in np.asarray(rc.value).tolist()) == sorted(chans(spec, rt.unwhitened(spec, t2, True)))
-                                    for t2 in which if t2 != t) and own[t] != own[[t2 for t2 in which if t2 != t][0]]:
+                    t_match = set(t for t, E in zip(which, exp) if np.allclose(D[c], E, atol=1e-6 * scale, rtol=1e-6))
+                    if rc.ok:
+                        got_ch = sorted(int(x) for x in np.asarray(rc.value).tolist())
+                        t_chan = set(t for t in which if got_ch == sorted(chans(spec, rt.unwhitened(spec, t, True))))
+                        if t_match and t_chan and not (t_match & t_chan):
                             ctx.violation('dominant_inconsistent', desc,
-                                          'cluster %d (templates %r, tied counts): its waveform sits on the channels of template %d but '
-                                          'get_cluster_channels follows another tied template' % (c, ts, t), f)
+                                          'cluster %d (templates %r, tied counts): its waveform follows tied template(s) %r but '
+                                          'get_cluster_channels follows %r' % (c, ts, sorted(t_match), sorted(t_chan)), f)
                 if not any(np.allclose(D[c], E, atol=1e-6 * scale, rtol=1e-6) for E in exp):
                     ctx.violation('cluster_waveform', desc,
                                   'cluster %d (templates %r): waveform differs from the %s' % (
@@ -171,6 +172,37 @@ def run_case(case, ctx):
                 if not ok:
                     ctx.violation('mean_waveforms', desc, 'get_cluster_mean_waveforms(%d) is not the weighted mean on the '
                                   'dominant template\'s channels (templates %r, counts %r)' % (c, ts, cnt.tolist()), f)
+            # history: curation continues in memory (in-place update of spike_clusters), then the mean waveform
+            # of the cluster that received the spikes is requested without reloading
+            if multi:
+                c = multi[0]
+                others = np.nonzero(~np.isin(st, mm[c]))[0]
+                if len(others):
+                    move = others[:3]
+                    rr = call(lambda: m.spike_clusters.__setitem__(move, c))
+                    sc2 = sc.copy()
+                    sc2[move] = c
+                    ts2 = sorted(set(st[sc2 == c].tolist()))
+                    cnt2 = np.array([(st[sc2 == c] == t).sum() for t in ts2], dtype=np.float64)
+                    rr = call(m.get_cluster_mean_waveforms, c)
+                    ctx.cell('after_inplace_curation')
+                    if not rr.ok:
+                        ctx.violation('raised', desc, 'get_cluster_mean_waveforms after an in-place update raised %r' % rr.exc,
+                                      dict(f, exc=rr.exc_name, after_inplace_update=True), tb=rr.tb)
+                    else:
+                        acc = np.zeros((nsw, nc))
+                        for t, n_ in zip(ts2, cnt2):
+                            W = np.zeros((nsw, nc))
+                            W[:, ownU[t]] = U[t][:, ownU[t]]
+                            acc += n_ * W
+                        acc /= cnt2.sum()
+                        gch = [int(x) for x in np.asarray(rr.value.channel_ids).tolist()]
+                        ok = any(n_ == cnt2.max() and sorted(gch) == ownU[t] and
+                                 np.allclose(np.asarray(rr.value.mean_waveforms), acc[:, gch], atol=1e-5, rtol=1e-5)
+                                 for t, n_ in zip(ts2, cnt2))
+                        if not ok:
+                            ctx.violation('mean_waveforms', desc, 'after moving spikes %r into cluster %d in memory, its mean waveform is '
+                                          'not the weighted mean over templates %r' % (move.tolist(), c, ts2), dict(f, after_inplace_update=True))
         finally:
             call(m.close)
     finally:
